@@ -110,7 +110,39 @@ impl Monitor for C08 {
     }
 }
 
+/// Low-bandwidth reservation + large constant demand: the trait-default service_time needs
+/// thousands of jump-ahead iterations here.
+fn direct_low_bandwidth(rng: &mut Rng, rep: &mut CaseReport) {
+    let p = rng.range(60, 200);
+    let sup = if rng.chance(1, 2) { Sup::Periodic { q: 1, p } } else { Sup::Constrained { q: 1, d: rng.range(1, p), p } };
+    let supply = build_supply(sup, true);
+    let demand = rng.range(500, 2500);
+    let ps = |t: u64| u64::from(supply.provided_service(Duration::from(t)));
+    let wl = |_r: u64| demand;
+    let big = demand * p + 4 * p;
+    let sol = least_solution(&ps, &wl, 0, big);
+    rep.sample = Some(jobj! {"supply" => sup.to_json(), "default_service_time" => true, "constant_workload" => demand, "least_solution" => sol});
+    for lim in [big, sol.unwrap_or(big).saturating_sub(1).max(1)] {
+        let expected = expected_of(sol.filter(|r| *r <= lim), 0, lim);
+        let workload = |_r: Duration| Service::from(demand);
+        let got = crate::framework::guard_fuel(50_000_000, || Outcome::from(fixed_point::search_with_offset(&supply, Offset::from(0), Duration::from(lim), &workload)));
+        rep.count("direct_searches_compared", 1);
+        rep.count("direct_low_bandwidth_searches", 1);
+        match got {
+            Ok(g) if g == expected => {}
+            Ok(g) => rep.violation(
+                "C08 entry=search_with_offset kind=differs-from-linear-scan (low-bandwidth supply, trait-default service_time)".to_string(),
+                jobj! {"supply" => sup.to_json(), "constant_workload" => demand, "limit" => lim, "library" => g.to_json(), "linear_scan" => expected.to_json()},
+            ),
+            Err(c) => rep.violation(format!("C08 entry=search_with_offset kind={} class={} (low-bandwidth supply)", c.kind, c.class()), c.to_json()),
+        }
+    }
+}
+
 fn direct(rng: &mut Rng, rep: &mut CaseReport) {
+    if rng.chance(1, 400) {
+        return direct_low_bandwidth(rng, rep);
+    }
     let (sup, dflt) = gen_supply(rng);
     let supply = build_supply(sup, dflt);
     let (q, _, p) = sup.qdp();
